@@ -1265,7 +1265,7 @@ func (p Patch) ApplyIndentWithOptions(doc []byte, indent string, options *ApplyO
 	self := newLazyNode(&raw)
 
 	var pd container
-	if doc[0] == '[' {
+	if isArray(bytes.TrimLeft(doc, " \t\r\n")) {
 		pd = &partialArray{
 			self: self,
 		}
